@@ -1498,3 +1498,18 @@ package mcp
 //@ func toolManager.handleCallTool
 //@   sweep[C02] handlerresultro
 //@
+// C07 — the stdio transport is only ever handed requests whose id is the client's own int64 counter value (or none)
+//@ func stdioClientTransport.sendRequest
+//@   callers-checked C07
+//@   requires[C07 request-ids-are-int64-counter-values] req != nil && (isnil(req.ID) || istype(req.ID, int64))
+//@   waive typeassert:req.ID
+//@
+//@ func newJSONRPCRequest
+//@   pure
+//@   ensures result != nil && result.ID == id && result.Method == method && result.JSONRPC == "2.0"
+//@
+// isZeroStruct only inspects its argument by reflection (assumed: reflect.DeepEqual / Zero do not write)
+//@ func isZeroStruct
+//@   trusted
+//@   pure
+//@
